@@ -1,10 +1,285 @@
-(* Props/C18.v -- property C18 (work in progress: flag table first). *)
-From Coq Require Import String.
-From Coq Require Import QArith ZArith List Bool Arith.
-From Ropt Require Import Base.Num Base.ListX Model.Config Gen.Gen_C18.
-Import ListNotations.
+(* Props/C18.v -- property C18: validated configurations are canonical, frozen and stable under re-validation.
+   Only statements; each is closed by a lemma of Proofs/Config.v / Proofs/ConfigThm.v.  All of them are about the
+   executable definitions of Model/Config.v that Check/Chk_C18.check_case evaluates against the real
+   EnOptConfig.model_validate, and hold for every number of variables, objectives, realizations and constraints.
 
+   Vocabulary (Model/Config.v; the specifications are in Proofs/ConfigThm.v, section "specifications"):
+     validate E ctx nls raw      EnOptConfig.model_validate(raw, context=OptModelTransforms(variables=ctx, nonlinear_constraints=nls)):
+                                 Ok c | Reject (ValidationError) | Unsupported; E = the enumeration ranges (instantiated with the
+                                 generated gen_enums), ctx = an optional VariableScaler, nls = optional positive scales by which
+                                 the context's non-linear constraint transform divides the bounds
+     dump c                      model_dump(round_trip=True) read back as a raw configuration
+     canonical_weights w w'      same length, qsum w' == 1, w_i * w'_j == w_j * w'_i, zeros and signs preserved
+     broadcast_of n l l'         length l' = n and (n = 0, or l' is the given vector l, or l = [x] and l' = n copies of x)
+     strict_broadcast_of n l l'  the same without the n = 0 exception (np.broadcast_to)
+     min_threshold m count       Some (min m count), Some count when m is None
+     crossed lo up               some entry of lo is larger than the entry of up at the same position
+     bad_length n l              length l is neither 1 nor n
+     canonical E c               full lengths everywhere, weights of sum one, thresholds within the counts, no crossed bounds,
+                                 enumeration values in range and NO perturbation type RELATIVE left (variables_wf, gradient_wf,
+                                 linear_wf, nonlinear_wf)
+     same_but_weights c c'       c' is c except that its weights are == (equal rationals) instead of identical terms
+     final_immutable cls         every path through the class's validators ends with the immutable flag set
+     store_immutable s           every expression that can reach the array store s yields a read-only array *)
+From Coq Require Import String.
+From Coq Require Import QArith ZArith List Bool Arith Lia.
+From Ropt Require Import Base.Num Base.ListX Model.Config Gen.Gen_C18 Proofs.Config Proofs.ConfigThm.
+Import ListNotations.
+Open Scope Q_scope.
+
+(* ---- canonical: weights ------------------------------------------------------------------------------------------ *)
+(* objective and realization weights of a validated configuration are the given ones divided by their sum *)
+Theorem C18_weights_canonical : forall E ctx nls raw c, validate E ctx nls raw = Ok c ->
+  canonical_weights (c_obj_w raw) (c_obj_w c) /\ canonical_weights (c_real_w raw) (c_real_w c).
+Proof. exact validate_weights_canonical. Qed.
+
+(* a weight sum below the float epsilon -- in particular a zero or negative sum -- is rejected, as normalize() does
+   (single negative weights with a positive sum are accepted by the code, and by the model) *)
+Theorem C18_weights_rejected : forall E ctx nls raw,
+  qsum (c_obj_w raw) < float_eps \/ qsum (c_real_w raw) < float_eps -> forall c, validate E ctx nls raw <> Ok c.
+Proof. exact validate_weights_rejected. Qed.
+
+Theorem C18_nonpositive_weights_rejected : forall E ctx nls raw,
+  qsum (c_obj_w raw) <= 0 \/ qsum (c_real_w raw) <= 0 -> forall c, validate E ctx nls raw <> Ok c.
+Proof. exact validate_weights_nonpositive_rejected. Qed.
+
+(* ---- canonical: broadcasts ---------------------------------------------------------------------------------------- *)
+(* every per-variable array has the length of initial_values, every per-constraint array the number of constraints *)
+Theorem C18_broadcast : forall E ctx nls raw c, validate E ctx nls raw = Ok c ->
+  let V := length (v_initial (c_vars raw)) in
+  length (v_initial (c_vars c)) = V /\ length (v_lower (c_vars c)) = V /\ length (v_upper (c_vars c)) = V /\
+  olen V (v_types (c_vars c)) /\ olen V (v_mask (c_vars c)) /\
+  length (g_mags (c_grad c)) = V /\ length (g_ptypes (c_grad c)) = V /\ length (g_btypes (c_grad c)) = V /\
+  length (c_obj_w c) = length (c_obj_w raw) /\ length (c_real_w c) = length (c_real_w raw) /\
+  match c_lin raw, c_lin c with
+  | Some l, Some l' => length (l_coeffs l') = length (l_coeffs l) /\ length (l_lower l') = length (l_coeffs l) /\
+                       length (l_upper l') = length (l_coeffs l) /\ Forall (fun r => length r = V) (l_coeffs l')
+  | None, None => True | _, _ => False end /\
+  match c_nonlin raw, c_nonlin c with
+  | Some nl, Some nl' => length (n_lower nl') = length (n_upper nl') /\
+                         (length (n_lower nl') = length (n_lower nl) \/ length (n_lower nl') = length (n_upper nl))
+  | None, None => True | _, _ => False end.
+Proof. exact validate_lengths. Qed.
+
+(* ... and equals the given vector or the repeated scalar; bounds and initial values are then mapped by the scaler of the
+   context (ctx_e / ctx_q are the identity without one), types, masks and boundary types never are *)
+Theorem C18_broadcast_values : forall E ctx nls raw c, validate E ctx nls raw = Ok c ->
+  let V := length (v_initial (c_vars raw)) in
+  exists lo up,
+    broadcast_of V (v_lower (c_vars raw)) lo /\ broadcast_of V (v_upper (c_vars raw)) up /\
+    v_initial (c_vars c) = ctx_q ctx (v_initial (c_vars raw)) /\
+    v_lower (c_vars c) = ctx_e ctx lo /\ v_upper (c_vars c) = ctx_e ctx up /\
+    obroadcast_of V (v_types (c_vars raw)) (v_types (c_vars c)) /\
+    obroadcast_of V (v_mask (c_vars raw)) (v_mask (c_vars c)) /\
+    strict_broadcast_of V (g_btypes (c_grad raw)) (g_btypes (c_grad c)).
+Proof. exact validate_values. Qed.
+
+(* perturbation magnitudes and types, entry by entry (no transform): a RELATIVE magnitude is multiplied by the finite
+   bound range and stored with type ABSOLUTE; any other entry is stored as given *)
+Theorem C18_perturbations_converted : forall E nls raw c mags ty i t x,
+  let V := length (v_initial (c_vars raw)) in
+  validate E None nls raw = Ok c ->
+  bcast_to V (g_mags (c_grad raw)) = Ok mags -> bcast_to V (g_ptypes (c_grad raw)) = Ok ty ->
+  nth_error ty i = Some t -> nth_error mags i = Some x ->
+  if Z.eqb t (pt_rel E)
+  then exists a b, nth_error (v_lower (c_vars c)) i = Some (Fin a) /\ nth_error (v_upper (c_vars c)) i = Some (Fin b) /\
+                   nth_error (g_mags (c_grad c)) i = Some ((b - a) * x) /\ nth_error (g_ptypes (c_grad c)) i = Some (pt_abs E)
+  else nth_error (g_mags (c_grad c)) i = Some x /\ nth_error (g_ptypes (c_grad c)) i = Some t.
+Proof. exact validate_perturbations. Qed.
+
+(* ---- canonical: thresholds ---------------------------------------------------------------------------------------- *)
+Theorem C18_clamped : forall E ctx nls raw c, validate E ctx nls raw = Ok c ->
+  c_rmin c = min_threshold (c_rmin raw) (length (c_real_w raw)) /\
+  g_P (c_grad c) = g_P (c_grad raw) /\ (0 < g_P (c_grad raw))%nat /\
+  g_pmin (c_grad c) = min_threshold (g_pmin (c_grad raw)) (g_P (c_grad raw)).
+Proof. exact validate_thresholds. Qed.
+
+(* ---- canonical: inconsistent bounds and shapes are rejected -------------------------------------------------------- *)
+(* `crossed` is what the executable test any_gt (np.any(lower > upper)) decides *)
+Theorem C18_crossed_iff : forall lo up, any_gt lo up = true <-> crossed lo up.
+Proof. exact any_gt_spec. Qed.
+
+(* lower > upper somewhere: variable bounds (with or without a scaler), linear and non-linear constraint bounds *)
+Theorem C18_rejects_crossed_variable_bounds : forall E ctx nls raw lo up,
+  broadcast1 (length (v_initial (c_vars raw))) (v_lower (c_vars raw)) = Ok lo ->
+  broadcast1 (length (v_initial (c_vars raw))) (v_upper (c_vars raw)) = Ok up ->
+  crossed lo up -> forall c, validate E ctx nls raw <> Ok c.
+Proof. exact rejects_crossed_variable_bounds. Qed.
+
+Theorem C18_rejects_crossed_linear_bounds : forall E ctx nls raw l lo up, c_lin raw = Some l ->
+  broadcast1 (length (l_coeffs l)) (l_lower l) = Ok lo -> broadcast1 (length (l_coeffs l)) (l_upper l) = Ok up ->
+  crossed lo up -> forall c, validate E ctx nls raw <> Ok c.
+Proof. exact rejects_crossed_linear_bounds. Qed.
+
+Theorem C18_rejects_crossed_nonlinear_bounds : forall E ctx nls raw nl p, c_nonlin raw = Some nl ->
+  bcast_pair (n_lower nl) (n_upper nl) = Ok p -> crossed (fst p) (snd p) -> forall c, validate E ctx nls raw <> Ok c.
+Proof. exact rejects_crossed_nonlinear_bounds. Qed.
+
+(* arrays that are neither scalars nor of full length *)
+Theorem C18_rejects_bad_variable_shapes : forall E ctx nls raw, let V := length (v_initial (c_vars raw)) in
+  V <> 0%nat ->
+  bad_length V (v_lower (c_vars raw)) \/ bad_length V (v_upper (c_vars raw)) \/
+  obad_length V (v_types (c_vars raw)) \/ obad_length V (v_mask (c_vars raw)) ->
+  forall c, validate E ctx nls raw <> Ok c.
+Proof. exact rejects_bad_variable_shapes. Qed.
+
+Theorem C18_rejects_bad_gradient_shapes : forall E ctx nls raw, let V := length (v_initial (c_vars raw)) in
+  bad_length V (g_mags (c_grad raw)) \/ bad_length V (g_ptypes (c_grad raw)) \/ bad_length V (g_btypes (c_grad raw)) ->
+  forall c, validate E ctx nls raw <> Ok c.
+Proof. exact rejects_bad_gradient_shapes. Qed.
+
+(* a coefficient matrix whose rows do not all have one column per variable; constraint bounds of a wrong length *)
+Theorem C18_rejects_bad_linear_shapes : forall E ctx nls raw l, let V := length (v_initial (c_vars raw)) in
+  c_lin raw = Some l ->
+  ~ Forall (fun r => length r = V) (l_coeffs l) \/
+  (l_coeffs l <> [] /\ (bad_length (length (l_coeffs l)) (l_lower l) \/ bad_length (length (l_coeffs l)) (l_upper l))) ->
+  forall c, validate E ctx nls raw <> Ok c.
+Proof. exact rejects_bad_linear_shapes. Qed.
+
+Theorem C18_rejects_bad_nonlinear_shapes : forall E ctx nls raw nl, c_nonlin raw = Some nl ->
+  length (n_lower nl) <> 1%nat -> length (n_upper nl) <> 1%nat -> length (n_lower nl) <> length (n_upper nl) ->
+  forall c, validate E ctx nls raw <> Ok c.
+Proof. exact rejects_bad_nonlinear_shapes. Qed.
+
+(* a relative perturbation on a variable one of whose (broadcast) bounds is infinite, with or without a scaler *)
+Theorem C18_rejects_relative_infinite : forall E ctx nls raw lo up ty i a b,
+  let V := length (v_initial (c_vars raw)) in
+  broadcast1 V (v_lower (c_vars raw)) = Ok lo -> broadcast1 V (v_upper (c_vars raw)) = Ok up ->
+  bcast_to V (g_ptypes (c_grad raw)) = Ok ty ->
+  nth_error ty i = Some (pt_rel E) -> nth_error lo i = Some a -> nth_error up i = Some b ->
+  efinite a && efinite b = false -> forall c, validate E ctx nls raw <> Ok c.
+Proof. exact rejects_relative_infinite. Qed.
+
+(* no perturbations, a zero success threshold, enumeration values outside their range *)
+Theorem C18_rejects_bad_gradient_fields : forall E ctx nls raw,
+  g_P (c_grad raw) = 0%nat \/ g_pmin (c_grad raw) = Some 0%nat \/
+  enum_ok (pt_lo E) (pt_hi E) (g_ptypes (c_grad raw)) = false \/ enum_ok (bt_lo E) (bt_hi E) (g_btypes (c_grad raw)) = false ->
+  forall c, validate E ctx nls raw <> Ok c.
+Proof. exact rejects_bad_gradient_fields. Qed.
+
+(* ---- stable under re-validation ------------------------------------------------------------------------------------ *)
+(* the enumeration values extracted from the current source satisfy what the theorems below need:
+   ABSOLUTE is a valid perturbation type and differs from RELATIVE *)
+Theorem C18_generated_enums_wf : enums_wf gen_enums.
+Proof. constructor; cbn; lia. Qed.
+
+(* whatever was validated (with or without a scaler) is in canonical form ... *)
+Theorem C18_validated_canonical : forall E ctx nls raw c, enums_wf E -> validate E ctx nls raw = Ok c -> canonical E c.
+Proof. exact validated_canonical. Qed.
+
+(* ... and every configuration in canonical form is a fixed point of validation (up to == on the weights) *)
+Theorem C18_canonical_fixed_point : forall E c, canonical E c ->
+  exists c', validate E None None c = Ok c' /\ same_but_weights c c'.
+Proof. exact canonical_fixed. Qed.
+
+(* idempotence: the dump of a validated configuration validates, without a context, to an equivalent configuration,
+   which is canonical again (so the statement applies to it in turn) *)
+Theorem C18_idempotent : forall E ctx nls raw c, enums_wf E -> validate E ctx nls raw = Ok c ->
+  exists c', validate E None None (dump c) = Ok c' /\ same_but_weights c c' /\ equiv c c' = true /\ canonical E c'.
+Proof. exact validate_idempotent. Qed.
+
+Theorem C18_idempotent_generated : forall ctx nls raw c, validate gen_enums ctx nls raw = Ok c ->
+  exists c', validate gen_enums None None (dump c) = Ok c' /\ equiv c c' = true.
+Proof.
+  intros ctx nls raw c H. destruct (validate_idempotent gen_enums ctx nls raw c C18_generated_enums_wf H) as (c' & Hv & _ & He & _).
+  exists c'. split; assumption.
+Qed.
+
+(* the clause behind fix 8967086: re-validation does not rescale the perturbation magnitudes -- relative magnitudes were
+   converted once and are stored with type ABSOLUTE, so the stored types contain no RELATIVE entry -- nor move the bounds *)
+Theorem C18_magnitudes_not_rescaled : forall E ctx nls raw c c', enums_wf E ->
+  validate E ctx nls raw = Ok c -> validate E None None (dump c) = Ok c' ->
+  g_mags (c_grad c') = g_mags (c_grad c) /\ g_ptypes (c_grad c') = g_ptypes (c_grad c) /\
+  Forall (fun t => t <> pt_rel E) (g_ptypes (c_grad c)) /\
+  v_lower (c_vars c') = v_lower (c_vars c) /\ v_upper (c_vars c') = v_upper (c_vars c).
+Proof. exact revalidation_keeps_magnitudes. Qed.
+
+(* ---- frozen: the flag discipline (what is proved of frozenness; the objects themselves are probed at run time) ------- *)
+(* every configuration class of the table generated from the current source ends its validators immutable *)
 Theorem C18_flags_final_immutable : forall c, In c config_classes -> final_immutable c = true.
 Proof. apply forallb_forall. vm_compute. reflexivity. Qed.
 
+(* every store into an array field found in the current source stores a read-only array ... *)
+Theorem C18_arrays_stored_immutable : forall s, In s array_stores -> store_immutable s = true.
+Proof. apply forallb_forall. vm_compute. reflexivity. Qed.
+
+(* ... and every array type used for the fields converts its input with immutable_array *)
+Theorem C18_array_types_converted : forall t, In t array_converters -> converter_immutable t = true.
+Proof. apply forallb_forall. vm_compute. reflexivity. Qed.
+
+(* the flag machine, for all validator sequences and start states: a sequence whose last unconditional call is
+   _immutable(), followed only by blocks that are empty or end with _immutable(), ends immutable on every path ... *)
+Theorem C18_flag_discipline : forall sts pre post, forallb keeps_immutable post = true ->
+  forallb is_immutable (finals sts (pre ++ Call FI :: post)) = true.
+Proof. exact finals_discipline. Qed.
+
+(* ... and one that ends with _mutable() does not (defect 1076ba8 had this shape) *)
+Theorem C18_last_mutable_not_frozen : forall sts pre, sts <> [] ->
+  forallb is_immutable (finals sts (pre ++ [Call FM])) = false.
+Proof. exact finals_last_mutable. Qed.
+
+(* ---- non-vacuity ----------------------------------------------------------------------------------------------------- *)
+(* three variables, scalar lower bound and vector upper bound, one RELATIVE perturbation on [0,4] with magnitude 1/4,
+   weights [1;3] and [2;0;2], thresholds above the counts, one linear and two non-linear constraints, validated with a
+   scaler: accepted, canonical, relative magnitude stored as the absolute value 1 (= (4-0)/4, then divided by the scale 1
+   of an entry whose type was RELATIVE: not transformed), re-validation of the dump equivalent; the same dictionary with
+   crossed bounds is rejected; the pre-fix OptimizerConfig is not final-immutable and a store of a fresh array is not
+   immutable *)
+Example C18_example :
+  let raw := {| c_vars := {| v_initial := [1; 2; 3]; v_lower := [Fin 0]; v_upper := [Fin 4; Fin 8; PInf];
+                             v_types := Some [1%Z]; v_mask := Some [true; false; true] |};
+                c_obj_w := [1; 3]; c_real_w := [2; 0; 2]; c_rmin := Some 7%nat;
+                c_grad := {| g_P := 5; g_pmin := None; g_mags := [1 # 4]; g_ptypes := [2%Z; 1%Z; 1%Z]; g_btypes := [3%Z] |};
+                c_lin := Some {| l_coeffs := [[1; 0; 2]]; l_lower := [NInf]; l_upper := [Fin 6] |};
+                c_nonlin := Some {| n_lower := [Fin 0]; n_upper := [Fin 1; PInf] |} |} in
+  let ctx := Some {| s_scales := Some [1; 2; 4]; s_offsets := Some [0; 1; 0] |} in
+  let nls := Some [2; 4] in
+  (exists c, validate gen_enums ctx nls raw = Ok c /\
+     c_obj_w c = [1 / (1 + (3 + 0)); 3 / (1 + (3 + 0))] /\ c_rmin c = Some 3%nat /\ g_pmin (c_grad c) = Some 5%nat /\
+     qlist_eqb (g_mags (c_grad c)) [1; 1 # 8; 1 # 16] = true /\ g_ptypes (c_grad c) = [1%Z; 1%Z; 1%Z] /\
+     v_mask (c_vars c) = Some [true; false; true] /\ v_types (c_vars c) = Some [1%Z; 1%Z; 1%Z] /\
+     option_map n_upper (c_nonlin c) = Some [Fin (1 / 2); PInf] /\
+     exists c', validate gen_enums None None (dump c) = Ok c' /\ equiv c c' = true /\ g_mags (c_grad c') = g_mags (c_grad c)) /\
+  validate gen_enums ctx nls {| c_vars := {| v_initial := [1; 2; 3]; v_lower := [Fin 5]; v_upper := [Fin 4; Fin 8; PInf];
+                                         v_types := None; v_mask := None |};
+                            c_obj_w := c_obj_w raw; c_real_w := c_real_w raw; c_rmin := None; c_grad := c_grad raw;
+                            c_lin := None; c_nonlin := None |} = Reject /\
+  final_immutable {| cc_name := "OptimizerConfig"; cc_kind := KImmutableBase;
+                     cc_validators := [("_method", [Call FM; Call FM])] |} = false /\
+  store_immutable {| as_class := "GradientConfig"; as_site := "fix_perturbations"; as_field := "perturbation_magnitudes";
+                     as_sources := [SField; SOther] |} = false /\
+  (0 < length config_classes)%nat /\ (0 < length array_stores)%nat /\ (0 < length array_converters)%nat.
+Proof.
+  cbv zeta. split; [|vm_compute; repeat split; try reflexivity; lia].
+  eexists. split; [vm_compute; reflexivity|]. repeat (split; [vm_compute; reflexivity|]).
+  eexists. split; [vm_compute; reflexivity|]. split; vm_compute; reflexivity.
+Qed.
+
+Print Assumptions C18_weights_canonical.
+Print Assumptions C18_weights_rejected.
+Print Assumptions C18_nonpositive_weights_rejected.
+Print Assumptions C18_broadcast.
+Print Assumptions C18_broadcast_values.
+Print Assumptions C18_perturbations_converted.
+Print Assumptions C18_clamped.
+Print Assumptions C18_crossed_iff.
+Print Assumptions C18_rejects_crossed_variable_bounds.
+Print Assumptions C18_rejects_crossed_linear_bounds.
+Print Assumptions C18_rejects_crossed_nonlinear_bounds.
+Print Assumptions C18_rejects_bad_variable_shapes.
+Print Assumptions C18_rejects_bad_gradient_shapes.
+Print Assumptions C18_rejects_bad_linear_shapes.
+Print Assumptions C18_rejects_bad_nonlinear_shapes.
+Print Assumptions C18_rejects_relative_infinite.
+Print Assumptions C18_rejects_bad_gradient_fields.
+Print Assumptions C18_generated_enums_wf.
+Print Assumptions C18_validated_canonical.
+Print Assumptions C18_canonical_fixed_point.
+Print Assumptions C18_idempotent.
+Print Assumptions C18_idempotent_generated.
+Print Assumptions C18_magnitudes_not_rescaled.
 Print Assumptions C18_flags_final_immutable.
+Print Assumptions C18_arrays_stored_immutable.
+Print Assumptions C18_array_types_converted.
+Print Assumptions C18_flag_discipline.
+Print Assumptions C18_last_mutable_not_frozen.
